@@ -53,6 +53,11 @@ class Externals:
         self.counter_atom = None
         self.rec_classes = {}      # RecT name -> (module, class) whose methods apply to records of that type
 
+    def rec_class_name(self, recname):
+        if recname in self.rec_classes:
+            return 'socketio.%s.%s' % self.rec_classes[recname]
+        return recname
+
     def note(self, text):
         self.assumed.add(text)
 
